@@ -4947,7 +4947,17 @@ bool RemapCompareLess(FunctionRemap *in1, FunctionRemap *in2) {
 
   // ok maybe something to do with return strength..
 
-  return false;
+  // Break the remaining ties in a way that does not depend on where the
+  // remaps happen to be allocated (the sets we sort are ordered by address),
+  // so that the generated code is the same from run to run: first by order of
+  // creation, then by prototype.
+  if (in1->_wrapper_index != in2->_wrapper_index) {
+    return in1->_wrapper_index < in2->_wrapper_index;
+  }
+  std::ostringstream proto1, proto2;
+  in1->write_orig_prototype(proto1, 0);
+  in2->write_orig_prototype(proto2, 0);
+  return proto1.str() < proto2.str();
 }
 
 /**
